@@ -372,8 +372,11 @@ def _replay_one(body, inputs) -> Outcome:
         bounded.load_all()
         import_repo()
         chk = bounded.CHECKS[body["where"]]
+        import contextlib
+        ctx = bounded.derived_constructors() if (body.get("extra") or {}).get("layout") == "DERIVED" else contextlib.nullcontext()
         try:
-            msg = chk.run(inputs)
+            with ctx:
+                msg = chk.run(inputs)
         except Exception:
             msg = "exception: " + traceback.format_exc()[-800:]
         return Outcome("ok") if msg is None else Outcome("fail", chk.name, msg)
